@@ -378,6 +378,15 @@ theorem procQ_spec (d : D) (i : Nat) (q : Q) :
       | noop => simp [ownedBy_nil]; exact fun x hx => Or.inr hx
       | unhandled => simp [ownedBy_nil]
       | mcopy => simp [ownedBy_nil]; exact fun x hx => Or.inr hx
+      | fl =>
+        dsimp only
+        by_cases hz : d.nGpus = 0
+        · simp [hz, ownedBy_nil]; exact fun x hx => Or.inr hx
+        · simp only [Bool.false_eq_true, if_false, hz, ownedBy_replicate, ownedBy_nil, GReq.owner, Option.some.injEq]
+          refine ⟨fun j hj => ?_, fun h => (by cases h), fun _ => ?_, fun x hx => hx, fun h => absurd rfl h⟩
+          · have : ¬ i = j := fun h => hj h.symm
+            simp [this]
+          · simp; omega
       | kern n =>
         cases n with
         | zero => simp [ownedBy_nil]; exact fun x hx => Or.inr hx
